@@ -487,6 +487,111 @@ def term_validation_rule(chk, src):
     chk.ob("term-validation", "unknown degrees of freedom and non-operators are rejected", not rej, fi.where, rej or "both rejected", "ValueError", line=fi.node.lineno)
 
 
+def op_scalar_rule(chk, src, rule, rule_product=None):
+    """abstract runs of the scalar side of the operator algebra on operator stand-ins whose class is the source class (constructor = a recorder of its four arguments):
+    -op, op * scalar (python int / float / complex, numpy scalar), Op.product, squeeze_identity keep the denoted operator: factor(-op) = -f, factor(op * s) = f * s,
+    a product has the operands' symbols / degrees of freedom / quantum numbers in operand order and the product of the factors, removing identity factors keeps the factor"""
+    from ..syminterp import SymInterp, Sym, OpenSym, Blob, SymRaise
+    from .chain_rules import class_resolver
+    from fractions import Fraction as Fr
+
+    class OpCls(Sym):
+        _cls = "Op"
+
+        def __call__(self, symbol, dof, factor=1.0, qn=None):
+            return OpV(symbol, dof, factor, qn)
+    OPC = OpCls("Op")
+
+    class OpV(Sym):
+        def __init__(self, symbol, dof, factor=1.0, qn=None):
+            super().__init__(f"Op({symbol!r})")
+            self._cls = "Op"
+            self.symbol, self.factor = symbol, factor
+            self.split_symbol = symbol.split(" ")
+            self.dofs = list(dof) if isinstance(dof, list) else [dof]
+            self.qn_list = list(qn) if isinstance(qn, list) else [qn] * len(self.dofs)
+            self.qn_size = 1
+
+        @property
+        def __class__(self):
+            return OPC
+
+    class NpScalar(Sym):
+        pass
+    generic = Sym("np.generic")
+
+    def isinst(x, t):
+        ts = t if isinstance(t, tuple) else (t,)
+        for tt in ts:
+            if tt is OPC and type(x) is OpV:
+                return True
+            if tt is generic and type(x) is NpScalar:
+                return True
+            if isinstance(tt, type) and tt in (int, float, complex, list, str, tuple) and type(x) is not OpV and type(x) is not NpScalar and isinstance(x, tt) and not (tt is int and isinstance(x, bool)):
+                return True
+        return False
+
+    def prod(xs, *a, **k):
+        out = 1
+        for x in xs:
+            out = out * x
+        return out
+    resolve = class_resolver(src, {"Op": OP})
+
+    def interp():
+        zeros = lambda n, dtype=None: ("zero-qn", n)      # noqa: E731
+        return SymInterp(src, resolve, {"Op": OPC, "np": OpenSym("np", make=lambda t: Blob(t), generic=generic, prod=prod, zeros=zeros, all=lambda x: True), "math": Sym("math", prod=prod),
+                                        "isinstance": isinst, "OpSum": lambda x=(): ("OpSum", list(x))})
+    f = 7
+    qa, qb, qc = ("qn", "a"), ("qn", "b"), ("qn", "c")
+    a = OpV("A", ["x"], f, [qa])
+    # ---- negation
+    fi = src.func(OP, "Op.__neg__")
+    r = interp().call_function(fi, [a])
+    ok = type(r) is OpV and r.factor == -f and (r.symbol, r.dofs, r.qn_list) == ("A", ["x"], [qa])
+    chk.ob(rule, "Op.__neg__", ok, fi.where, repr((getattr(r, "symbol", r), getattr(r, "dofs", None), str(getattr(r, "factor", None)), getattr(r, "qn_list", None))), "same operator string, factor -f", line=fi.node.lineno,
+           detail="factor of -op is not -factor(op), or the operator string / quantum numbers change")
+    # ---- scalars
+    fi = src.func(OP, "Op.__mul__")
+    sc = NpScalar("numpy scalar", item=lambda: 5)
+    for name, s_, val in (("int", 3, 3), ("float", 0.5, Fr(1, 2)), ("complex", 2j, 2j), ("numpy scalar", sc, 5)):
+        try:
+            r = interp().call_function(fi, [a, s_])
+        except SymRaise as e:
+            r = f"raises {e}"
+        want = f * val if not isinstance(val, complex) else complex(f) * val
+        ok = type(r) is OpV and r.factor == want and (r.symbol, r.dofs, r.qn_list) == ("A", ["x"], [qa])
+        chk.ob(rule, f"Op.__mul__[{name}]", ok, fi.where, repr((getattr(r, "symbol", r), getattr(r, "dofs", None), str(getattr(r, "factor", None)), getattr(r, "qn_list", None))), f"same operator string, factor f * s = {want}",
+               line=fi.node.lineno, detail="factor of op * s is not factor(op) * s")
+    # ---- product of operators
+    fi = src.func(OP, "Op.product")
+    b, c = OpV("B1 B2", ["y", "z"], Fr(5), [qb, qb]), OpV("C", ["x"], Fr(1, 2), [qc])
+    r = interp().call_function(fi, [OPC, [a, b, c]])
+    ok = type(r) is OpV and (r.symbol, r.dofs, r.qn_list) == ("A B1 B2 C", ["x", "y", "z", "x"], [qa, qb, qb, qc]) and r.factor == f * 5 * Fr(1, 2)
+    ok_order = type(r) is OpV and (r.symbol, r.dofs, r.qn_list) == ("A B1 B2 C", ["x", "y", "z", "x"], [qa, qb, qb, qc])
+    if rule_product:
+        chk.ob(rule_product, "Op.product: operand order of symbols, degrees of freedom and quantum numbers", ok_order, fi.where, repr((getattr(r, "symbol", r), getattr(r, "dofs", None), getattr(r, "qn_list", None))),
+               repr(("A B1 B2 C", ["x", "y", "z", "x"], [qa, qb, qb, qc])), line=fi.node.lineno,
+               detail="symbol / DoF / quantum-number lists of a product are aggregated in different orders: the k-th symbol no longer belongs to the k-th DoF and quantum number")
+    chk.ob(rule, "Op.product", ok, fi.where, repr((getattr(r, "symbol", r), getattr(r, "dofs", None), str(getattr(r, "factor", None)), getattr(r, "qn_list", None))),
+           "symbols, degrees of freedom and quantum numbers in operand order; product of the factors", line=fi.node.lineno,
+           detail="the k-th symbol of a product must belong to the k-th degree of freedom and quantum number, and the factor of a product is the product of the factors")
+    # ---- identity factors removed
+    fi = src.func(OP, "Op.squeeze_identity")
+    z = ("zero-qn", 1)
+    cases = [("mixed string", OpV("X I Y I", ["d0", "d1", "d2", "d3"], f, [qa, z, qb, z]), ("X Y", ["d0", "d2"], [qa, qb])),
+             ("single identity", OpV("I", ["d0"], f, [z]), ("I", ["d0"], [z])),
+             ("product of identities", OpV("I I I", ["d0", "d1", "d2"], f, [z, z, z]), ("I", ["d0"], [z]))]
+    for name, op_, (wsym, wdofs, wqn) in cases:
+        try:
+            r = interp().call_function(fi, [op_])
+        except SymRaise as e:
+            r = f"raises {e}"
+        ok = type(r) is OpV and r.factor == f and (r.symbol, r.dofs) == (wsym, wdofs) and len(r.qn_list) == len(wqn)
+        chk.ob(rule, f"Op.squeeze_identity[{name}]", ok, fi.where, repr((getattr(r, "symbol", r), getattr(r, "dofs", None), str(getattr(r, "factor", None)))), repr((wsym, wdofs, str(f))), line=fi.node.lineno,
+               detail="removing identity factors never changes the denoted operator: the factor stays, also when nothing but identities is left")
+
+
 def run(chk):
     import sympy as sp
     src = chk.src
@@ -503,7 +608,7 @@ def run(chk):
     chk.rule("eq-hash-key", "Op defines both __eq__ and __hash__, and every field read by __hash__ is read by __eq__ on both operands", 2)
     chk.rule("array-truth", "a quantum-number ndarray compared with ==/!=/< (or used bare) in a boolean context is reduced by np.all/np.any", 1)
     chk.rule("qn-carry", "Op(...) whose symbol derives from an existing Op's symbol/split_symbol passes an explicit qn", 9)
-    chk.rule("product-order", "the four aggregations of Op.product iterate the same list in the same direction, and Op(...) receives them in (symbol, dof, factor, qn) positions", 2)
+    chk.rule("product-order", "Op.product (abstract run on three operands, one of them a two-symbol operator): symbols, degrees of freedom and quantum numbers of the result in operand order", 1)
     chk.rule("operand-order", "abstract run of Op / OpSum / list arithmetic (*, +, -, unary -, +=, /): every term present once, operands in order, signs and scalar factors as written", 20)
     product_order_rule(chk, src)
     chk.rule("term-validation", "Model.check_operator_terms (abstract run)", 2)
@@ -546,81 +651,8 @@ def run(chk):
     for rel in (OP, MODEL, SYMMPO, HQC):
         for fi in src.funcs_in(rel):
             qn_carry(src, chk, fi)
-    # ---- product order
-    prod = src.func(OP, "Op.product")
-    iters = []
-    for n in ast.walk(prod.node):
-        if isinstance(n, (ast.GeneratorExp, ast.ListComp)):
-            for g in n.generators:
-                iters.append((unparse(g.iter), unparse(n.elt)))
-    its = {i for i, _ in iters}
-    fields = {e.split(".")[-1] for _, e in iters}
-    ok = len(its) == 1 and not any(("reversed" in i or "sorted" in i or "[::-1]" in i) for i in its) and \
-        {"symbol", "dofs", "factor", "qn_list"} <= fields
-    chk.ob("product-order", "Op.product aggregations", ok, prod.where, sorted(iters), "4 aggregations over one iterable, same direction",
-           detail="symbol / DoF / quantum-number lists of a product are aggregated in different orders: the k-th symbol no longer "
-                  "belongs to the k-th DoF and quantum number", line=prod.node.lineno)
-    ctor = [n for n in ast.walk(prod.node) if isinstance(n, ast.Call) and unparse(n.func) in ("Op", "cls")]
-    if len(ctor) != 1:
-        raise AnalysisError("Op.product: constructor call not found")
-    # each positional arg name must have been aggregated from the matching field
-    assigns = {unparse(s.targets[0]): s.value for s in ast.walk(prod.node) if isinstance(s, ast.Assign) and len(s.targets) == 1}
-    want = ["symbol", "dofs", "factor", "qn_list"]
-    got = []
-    args = list(ctor[0].args)
-    kwmap = {"symbol": 0, "dof": 1, "factor": 2, "qn": 3}
-    slots = [None] * 4
-    for i, a in enumerate(args[:4]):
-        slots[i] = a
-    for k in ctor[0].keywords:
-        if k.arg in kwmap:
-            slots[kwmap[k.arg]] = k.value
-    for a in slots:
-        v = assigns.get(unparse(a), a) if a is not None else None
-        f = None
-        if v is not None:
-            for x in ast.walk(v):
-                if isinstance(x, ast.Attribute) and x.attr in want:
-                    f = x.attr
-        got.append(f)
-    chk.ob("product-order", "Op.product constructor slots", got == want, prod.where, got, want,
-           detail="Op.product passes an aggregate in the wrong constructor position", line=ctor[0].lineno)
-
-    # ---- factor algebra
-    f, s = sp.symbols("f s")
-
-    def ctor_factor(fi, pred=None):
-        outs = []
-        for n in walk_no_nested(fi.node):
-            if isinstance(n, ast.Call) and unparse(n.func) in ("Op", "cls", "self.__class__") and (len(n.args) >= 3 or any(k.arg == "factor" for k in n.keywords)):
-                fa = n.args[2] if len(n.args) >= 3 else [k.value for k in n.keywords if k.arg == "factor"][0]
-                outs.append((n, fa))
-        return outs
-
-    neg = src.func(OP, "Op.__neg__")
-    for n, fa in ctor_factor(neg):
-        v = factor_expr(fa, {"self.factor": f})
-        chk.ob("factor-algebra", "Op.__neg__", sp.simplify(v + f) == 0, neg.where, str(v), "-f", line=n.lineno,
-               detail="factor of -op is not -factor(op)")
-    mul = src.func(OP, "Op.__mul__")
-    other = mul.params()[1]
-    for n, fa in ctor_factor(mul):
-        v = factor_expr(fa, {"self.factor": f, other: s})
-        chk.ob("factor-algebra", "Op.__mul__[scalar]", sp.simplify(v - f * s) == 0, mul.where, str(v), "f*s", line=n.lineno,
-               detail="factor of op*s is not factor(op)*s")
-    # product: np.prod over op.factor
-    for n, fa in ctor_factor(prod):
-        v = assigns.get(unparse(fa), fa)
-        t = unparse(v).replace(" ", "")
-        ok = t in ("np.prod([op.factorforopinop_list])", "np.prod(op.factorforopinop_list)", "math.prod(op.factorforopinop_list)",
-                   "math.prod([op.factorforopinop_list])")
-        if not ok:
-            # accept any np.prod over a comprehension whose element is <var>.factor iterating op_list
-            ok = isinstance(v, ast.Call) and unparse(v.func) in ("np.prod", "math.prod", "numpy.prod") and len(v.args) == 1 \
-                and isinstance(v.args[0], (ast.ListComp, ast.GeneratorExp)) and isinstance(v.args[0].elt, ast.Attribute) \
-                and v.args[0].elt.attr == "factor" and len(v.args[0].generators) == 1 and not v.args[0].generators[0].ifs
-        chk.ob("factor-algebra", "Op.product", ok, prod.where, unparse(v), "product of the operands' factors", line=n.lineno,
-               detail="factor of a product is not the product of the factors")
+    # ---- product order, factor algebra: abstract runs
+    op_scalar_rule(chk, src, "factor-algebra", rule_product="product-order")
     simplify_order_rule(chk, src)
     # linear-structure dunders: evaluate the returned expression symbolically (self -> A, other -> B)
     A, B = sp.symbols("A B")
